@@ -394,7 +394,7 @@ class Old:
 class Contract:
     FIELDS = ('params', 'closure', 'requires', 'ensures', 'ghost', 'raises', 'modifies', 'loops',
               'assumes', 'props', 'inline', 'native', 'result', 'tier', 'unroll', 'globals',
-              'scope', 'note', 'kind', 'decreases', 'lemmas', 'timeout', 'modular', 'must_raise', 'raises_iff', 'externals')
+              'scope', 'note', 'kind', 'decreases', 'lemmas', 'timeout', 'modular', 'must_raise', 'raises_iff', 'externals', 'callees')
 
     def __init__(self, target, cls, variant=None):
         self.target = target
@@ -425,6 +425,7 @@ class Contract:
         self.must_raise = ()
         self.raises_iff = True
         self.externals = {}
+        self.callees = {}
         for k, v in vars(cls).items():
             if k.startswith('_'):
                 continue
@@ -534,3 +535,14 @@ class KwArgs(Shape):
         names = list(self.items)
         pools = [self.items[n].enum(budget) for n in names]
         return [dict(zip(names, c)) for c in itertools.islice(itertools.product(*pools), 200)]
+
+
+class GlobalRef(Shape):
+    """a module-level singleton of /repo (e.g. a sentinel created with object())"""
+    def __init__(self, qual):
+        self.qual = qual
+
+    def enum(self, budget=3):
+        import importlib
+        mod, _, name = self.qual.partition(':')
+        return [getattr(importlib.import_module(mod), name)]
